@@ -124,7 +124,9 @@ def compare(res: Res, p: dict, r0, src0: str, knobs: list[str], rng: random.Rand
         if ex is None:
             return
         q = dict(p, prog=ex)
-    lay = Layout(random.Random(rng.getrandbits(32)), **{k: True for k in knobs})
+    # a fifth of the re-layouts with comments use characters that some line splitters take for line ends (form feed, vertical tab,
+    # U+0085, U+2028 ...): inside a comment they are comment text
+    lay = Layout(random.Random(rng.getrandbits(32)), **{k: True for k in knobs}, **({"exotic_comments": True} if "comments" in knobs and rng.random() < 0.2 else {}))
     src1, files1 = materialise(q, lay)
     if include:
         # blank lines around the moved run; the included file may end without a line end
